@@ -22,7 +22,7 @@ SETS = {"quick": ["U1L_all", "R2K", "P:P1q", "P:P3q", "P:P4q"], "thorough": ["U1
 NCYC = {"quick": 2, "thorough": 3}
 NDAG = {"quick": 3, "thorough": 3}
 STEP = 60
-LIMIT = 5.0
+LIMIT = 20.0  # wall clock; generous so that an overloaded machine is not mistaken for non-termination
 MAXTASKS = 8
 
 
